@@ -101,4 +101,19 @@ TEXT = {
         "level_text": "the real client handshake runs against every short server script; success, fd capability (observed behaviourally) and delivery of messages/fds sent right behind the handshake are compared with the model",
         "level_note": "kernel batching of trailing messages and fds is emulated by the scripted transport",
     },
+    "C18": {"engine": "zb",
+        "technique": "offline history checker over the captured write-call log under a seeded scheduler with partial writes and stalls",
+        "level_text": "the real send path runs with many concurrent senders over a write half that accepts random partial writes and stalls; the captured call log is framed with the reference parser and checked for wholeness, exactly-once, per-sender order and fd placement; interleaving evidence is counted",
+        "level_note": "deterministic single-threaded scheduler (real-thread TSan variant is thorough-only); writes are captured at the transport boundary",
+    },
+    "C19": {"engine": "zb",
+        "technique": "call-table history monitor against a scripted peer under a seeded scheduler, with fault injection at the end",
+        "level_text": "every call's completion is matched against what the scripted peer actually answered for that call's wire serial, across out-of-order, stray, duplicate and never-sent replies, cancellation and a final transport failure",
+        "level_note": "peer speaks the reference codec; hang verdicts are taken at quiescence (logical time)",
+    },
+    "C20": {"engine": "zb",
+        "technique": "interval-model history monitor (rounds separated by quiescence) + structural invariant hook at quiescent points",
+        "level_text": "stream lifecycles race with labelled incoming messages; delivery per stream is compared with the interval model and the subscription refcounts are read through a cfg hook under the connection's own locks",
+        "level_note": "needs the cfg(zbus_verif) subscriptions snapshot; streams are kept polled as the property requires",
+    },
 }
